@@ -94,6 +94,11 @@ static void c09(int codec, int scale) {
         v_case(n >= 2 ? v_hash(x, n < 4096 ? n : 4096, (uint64_t)n * 31 + (uint64_t)pat + (uint64_t)level * 1000003) : 0);
         if (n > 65536) v_count("inputs_over_64k");
         size_t bound = do_bound(codec, n);
+        if (n == 0) { /* the empty string in its other C representation: a NULL pointer with length 0 (what the page writer passes for an empty buffer) */
+            uint8_t* d0 = v_exact(bound); size_t c0 = (size_t)-1; int s0 = do_compress(codec, NULL, 0, d0, bound, &c0, level); v_count("empty_input_as_null_pointer");
+            if (s0 != CARQUET_OK) { snprintf(key, sizeof key, "%s:empty-input-as-null-pointer-refused", CN[codec]); v_viol(key, "level=%d status=%d (the same empty input behind a non-NULL pointer is accepted)", level, s0); }
+            else { uint8_t* c1 = v_exact_copy(d0, c0); uint8_t y0[1]; size_t dl = (size_t)-1; int s1 = do_decompress(codec, c1, c0, y0, 0, &dl); if (c0 > bound || s1 != CARQUET_OK || dl != 0) { snprintf(key, sizeof key, "%s:roundtrip:empty-as-null", CN[codec]); v_viol(key, "clen=%zu status=%d dlen=%zu", c0, s1, dl); } free(c1); }
+            free(d0); }
         /* (1) exact bound */
         uint8_t* d = v_exact(bound); size_t clen = (size_t)-1;
         int st = do_compress(codec, x, n, d, bound, &clen, level);
